@@ -1040,6 +1040,21 @@ def r_thresholds(ctx):
                     ok3, _, _ = M.guarded(body, [pt], lambda atoms, lit: any(opt_is(a, lambda x: nf(x, 'theta'), 'None') for a in atoms))
                     ctx.check(ok2 and ok3, 'R09.5', tag + '/theta-max-guard', body, body.loc(*pt), 'theta = MAX only for exact nodes that received no threshold from below',
                               'theta = MAX is assigned to a node that is not (exact and still without threshold)')
+                elif inner[0] == 'min' and len(inner[1]) == 2 and body is b and any(isinstance(x, tuple) and x[0] == 'sub' and M.is_field(x[2], 'cost', 'Edge') for x in inner[1]):
+                    # propagation to a parent, list walk written in place (the foreach! macro expanded by hand, or a helper doing the walk
+                    # that was inlined): min(parent.theta or MAX, child.theta - edge.cost) with edge = the current inbound arc of that child
+                    par = [x for x in inner[1] if opt_or(x, lambda o: nf(o, 'theta'), is_max_const)]
+                    chd = [x for x in inner[1] if isinstance(x, tuple) and x[0] == 'sub' and M.is_field(x[2], 'cost', 'Edge')]
+                    if par and chd:
+                        E_ = chd[0][2][1]
+                        ct = chd[0][1]
+                        par_is_from = M.is_field(idx, '0') and M.is_field(idx[1], 'from', 'Edge') and idx[1][1] == E_
+                        child_ok = M.is_field(ct, '0') and isinstance(ct[1], tuple) and ct[1][0] == 'variant' and ct[1][2] == 'Some' and node_field(ct[1][1], 'theta') is not None
+                        ac_ = arc_child(ctx, b, body, E_) if par_is_from and child_ok else None
+                        if ac_ is not None:
+                            form = 'propagation min(parent.theta, child.theta - edge.cost)'
+                            ctx.check(ac_[0] == node_field(ct[1][1], 'theta'), 'R09.5', tag + '/theta-propagation-arcs', body, body.loc(*pt),
+                                      'thresholds are propagated along the inbound arcs of the node whose theta is used', 'theta propagation does not iterate the inbound arcs of the child whose theta it uses')
                 elif inner[0] == 'min' and len(inner[1]) == 2 and body.kind == 'closure':
                     # propagation to a parent: min(parent.theta or MAX, child.theta - edge.cost)
                     par = [x for x in inner[1] if opt_or(x, lambda o: nf(o, 'theta'), is_max_const)]
